@@ -21,6 +21,7 @@ func init() {
 
 func runC06(p *core.Program, r *core.Report) {
 	c06R1(p, r)
+	c06R9(p, r)
 	// R2 = C13.R1
 	sub := core.NewReport(r.Prog, "C13")
 	c13R1(p, sub)
